@@ -733,6 +733,96 @@ pub fn long_verdicts(ty: Ty, n: usize, only: Option<(u8, u64)>) -> (Vec<(Value, 
     (out, npoints)
 }
 
+/// One record with a part of n points, then a small record, then drop: every operation of the .shp (and of the
+/// .shx) failing once.  The call during which the operation failed must return an error.
+pub fn long_record_verdicts(ty: Ty, n: usize, only: Option<(u8, u64)>) -> (Vec<(Value, String, String)>, u64) {
+    let pal = Palette::new(ty, None);
+    let long = crate::bridge::to_lib(&crate::structs::sized(ty, n));
+    let run = |fault: Option<(u8, u64)>, logging: bool| -> (WEnv, Vec<bool>) {
+        let env = WEnv::new(true);
+        if !logging {
+            env.shp.0.borrow_mut().logging = false;
+            env.shx.as_ref().unwrap().0.borrow_mut().logging = false;
+        }
+        if let Some((d, k)) = fault {
+            (if d == 0 { env.shp.clone() } else { env.shx.clone().unwrap() }).fail_at(k, FaultMode::OneShot);
+        }
+        let mut ok = vec![];
+        {
+            let mut w = ShapeWriter::with_shx(env.shp.clone(), env.shx.clone().unwrap());
+            for (i, s) in [&pal.lib[0], &long, &pal.lib[1]].into_iter().enumerate() {
+                env.set_call(i as u32);
+                ok.push(crate::bridge::write_shape(&mut w, s).is_ok());
+            }
+            env.set_call(3);
+        }
+        (env, ok)
+    };
+    let points: Vec<(u8, u64)> = match only {
+        Some(p) => vec![p],
+        None => {
+            let (base, _) = run(None, true);
+            (0..base.shp.log_len() as u64).map(|k| (0u8, k)).chain((0..base.shx.as_ref().unwrap().log_len() as u64).map(|k| (1u8, k))).collect()
+        }
+    };
+    let npoints = points.len() as u64;
+    let mut out = vec![];
+    for (d, k) in points {
+        let cj = json!({"ty": ty.name(), "long_record": n, "fault_on": (["shp", "shx"][d as usize]), "operation": k});
+        match catch(|| run(Some((d, k)), false)) {
+            Ok((env, ok)) => {
+                let calls: Vec<u32> = env.shp.fault_calls().into_iter().chain(env.shx.as_ref().unwrap().fault_calls()).collect();
+                for c in calls {
+                    if (c as usize) < 3 && ok[c as usize] {
+                        out.push((cj.clone(), format!("{}:long-record:failure-not-reported", ty.name()), format!("operation {} on .{} failed once during write_shape number {} (0: small, 1: a part of {} points, 2: small), which returned Ok", k, ["shp", "shx"][d as usize], c, n)));
+                    }
+                }
+            }
+            Err(p) => out.push((cj, format!("{}:long-record:{}", ty.name(), p.sig()), p.msg)),
+        }
+    }
+    (out, npoints)
+}
+
+/// A destination that stops working for good (from operation k of the .shp on) while the caller goes on calling
+/// write_shape `calls` times: every one of these calls returns an error, none panics.
+pub fn repeated_failure_verdicts(ty: Ty, k: u64, calls: usize) -> Vec<(String, String)> {
+    let pal = Palette::new(ty, None);
+    let r = catch(|| {
+        let env = WEnv::new(true);
+        env.shp.0.borrow_mut().logging = false;
+        env.shx.as_ref().unwrap().0.borrow_mut().logging = false;
+        env.shp.fail_at(k, FaultMode::Persistent);
+        let mut bad = vec![];
+        let mut w = ShapeWriter::with_shx(env.shp.clone(), env.shx.clone().unwrap());
+        let mut failing = false;
+        for i in 0..calls {
+            let before = env.shp.faults_fired();
+            let r = catch(|| crate::bridge::write_shape(&mut w, &pal.lib[i % 2]).map_err(|e| crate::bridge::err_kind(&e)));
+            let fired = env.shp.faults_fired() > before;
+            failing |= fired;
+            match r {
+                Err(p) => {
+                    bad.push((format!("{}:repeated-failures:{}", ty.name(), p.sig()), format!("write_shape number {} on a destination that has stopped working: {}", i, p.msg)));
+                    break;
+                }
+                Ok(Ok(())) if fired => bad.push((format!("{}:repeated-failures:failure-not-reported", ty.name()), format!("write_shape number {} returned Ok although an operation of it failed", i))),
+                Ok(Ok(())) if failing => bad.push((format!("{}:repeated-failures:success-without-writing", ty.name()), format!("write_shape number {} returned Ok without the destination accepting anything", i))),
+                _ => {}
+            }
+            if bad.len() > 3 {
+                break;
+            }
+        }
+        std::mem::forget(w);
+        bad
+    });
+    match r {
+        Ok(v) => v,
+        Err(p) => vec![(format!("{}:repeated-failures:{}", ty.name(), p.sig()), p.msg)],
+    }
+}
+
 /// A destination that keeps the first 128 bytes (the header and the first record header), its extent and where every write landed, and discards the rest:
 /// files beyond 2 GiB without the memory.
 #[derive(Clone)]
@@ -982,6 +1072,33 @@ pub fn check(tier: Tier) -> i32 {
             big.violation(sig, || cj, || d);
         }
     }
+    // one record with a long part between two small ones: every operation failing once
+    for (ty, n) in tier.pick(vec![(Ty::PolylineZ, 2100usize), (Ty::MultipointM, 2100)], vec![(Ty::PolylineZ, 2100), (Ty::MultipointM, 2100), (Ty::Multipatch, 5000), (Ty::Polygon, 9000)]) {
+        let (v, npoints) = long_record_verdicts(ty, n, None);
+        big.lib_calls += npoints * 3;
+        for i in 0..npoints {
+            let mut hh = Fnv::new();
+            hh.str(&format!("longrec{}{}{}", ty.name(), n, i));
+            big.case_done(hh.finish(), true, 13);
+        }
+        for (cj, sig, d) in v {
+            big.violation(sig, || cj, || d);
+        }
+    }
+    // a destination that stops working for good while the caller keeps writing (300 calls; thorough 70 000)
+    for ty in [Ty::Point, Ty::PolylineM] {
+        for k in [0u64, 1, 30, 60, 61, 62, 63, 64, 65, 70] {
+            let calls = tier.pick(300usize, 70_000);
+            let cj = json!({"ty": ty.name(), "repeated_failures_from_operation": k, "calls": calls});
+            let mut hh = Fnv::new();
+            hh.str(&cj.to_string());
+            big.case_done(hh.finish(), true, 14);
+            big.lib_calls += calls as u64;
+            for (sig, d) in repeated_failure_verdicts(ty, k, calls) {
+                big.violation(sig, || cj.clone(), || d);
+            }
+        }
+    }
     // one long history, faults at every seek / flush and at both ends
     for (ty, n) in tier.pick(vec![(Ty::Point, 131_073usize)], vec![(Ty::Point, 131_073), (Ty::Point, 300_001), (Ty::PolylineM, 131_073)]) {
         let (v, npoints) = long_verdicts(ty, n, None);
@@ -1016,7 +1133,7 @@ pub fn check(tier: Tier) -> i32 {
             tier,
             level: "fault_enumeration",
             engine: "writer histories on the real ShapeWriter over fault-injecting / short-writing devices; one execution per (workload, fault point or chunking schedule)",
-            rule: "workloads = every history over {Wa, Wb, F} up to the length bound x {with, without .shx} x types, ending in drop; fault points = every operation index k (write, seek or flush, counted on the fault-free log of this tree) on each device x {one-shot, persistent}; a one-shot fault inside a finalize is followed by the same history with that finalize retried; a second one-shot fault at every operation of that retry (same or other device) followed by a third call; every fault point again under uniform short writes (chunk 1 and 7; thorough 1, 3, 7, 16); a one-shot fault inside a finalize that is NOT retried at once: the history goes on and the files after drop equal the undisturbed run; for histories up to the extra bound: every fault point again with ErrorKind Interrupted (the operation failing 1..4 times in a row), WouldBlock (1..2 times), TimedOut, with writes that accept 0 bytes, with seeks that have moved the position when they report their failure, and (histories <= 2; quick: 3 types) with every other stable std::io::ErrorKind (an interrupted operation may be tried again, then the run must be indistinguishable from the undisturbed one incl. flushed state; every other kind must be reported), every fault point again on destinations that already hold longer stale content, and every unordered pair of one-shot faults anywhere in the history (files, up to their declared length, equal the undisturbed run of the history without the failed writes); a .shp beyond 2 GiB (two user-defined records of 1 GiB on a discarding destination, a finalize, two small records) with each of the last 80 and first 8 operations of the .shp failing once; one history of 131073 writes (thorough also 300001, and PolylineM) with every seek and flush and the first and last 40 operations of each device failing once; chunking = uniform c in {1,2,3,4,5,7,8,9,15,16,17} (and 7..2^20 on shapes of 8193..70001 points) and, for every write call j, 'call j moves 1 byte' and 'call j moves len-1 bytes'; every case is non-trivial",
+            rule: "workloads = every history over {Wa, Wb, F} up to the length bound x {with, without .shx} x types, ending in drop; fault points = every operation index k (write, seek or flush, counted on the fault-free log of this tree) on each device x {one-shot, persistent}; a one-shot fault inside a finalize is followed by the same history with that finalize retried; a second one-shot fault at every operation of that retry (same or other device) followed by a third call; every fault point again under uniform short writes (chunk 1 and 7; thorough 1, 3, 7, 16); a one-shot fault inside a finalize that is NOT retried at once: the history goes on and the files after drop equal the undisturbed run; for histories up to the extra bound: every fault point again with ErrorKind Interrupted (the operation failing 1..4 times in a row), WouldBlock (1..2 times), TimedOut, with writes that accept 0 bytes, with seeks that have moved the position when they report their failure, and (histories <= 2; quick: 3 types) with every other stable std::io::ErrorKind (an interrupted operation may be tried again, then the run must be indistinguishable from the undisturbed one incl. flushed state; every other kind must be reported), every fault point again on destinations that already hold longer stale content, and every unordered pair of one-shot faults anywhere in the history (files, up to their declared length, equal the undisturbed run of the history without the failed writes); a .shp beyond 2 GiB (two user-defined records of 1 GiB on a discarding destination, a finalize, two small records) with each of the last 80 and first 8 operations of the .shp failing once; a record with a part of 2100 points (thorough also 5000, 9000) between two small ones with every operation of either device failing once; a destination that stops working for good at one of 10 places while the caller goes on calling write_shape 300 (thorough 70 000) times: every call reports, none panics; one history of 131073 writes (thorough also 300001, and PolylineM) with every seek and flush and the first and last 40 operations of each device failing once; chunking = uniform c in {1,2,3,4,5,7,8,9,15,16,17} (and 7..2^20 on shapes of 8193..70001 points) and, for every write call j, 'call j moves 1 byte' and 'call j moves len-1 bytes'; every case is non-trivial",
             bounds: json!({"max_history": tier.pick(4, 6), "max_history_kinds_pairs_stale": tier.pick(3, 4), "types": types.iter().map(|t| t.name()).collect::<Vec<_>>(), "uniform_chunks": UNIFORM}),
             exhaustive: true,
             assumptions: vec![
@@ -1042,6 +1159,13 @@ pub fn replay(v: &Value) -> Vec<(String, String)> {
     if let (Some(n), Some(k), Some(ty)) = (v.get("long_history").and_then(|x| x.as_u64()), v.get("operation").and_then(|x| x.as_u64()), v.get("ty").and_then(|x| x.as_str()).and_then(Ty::from_name)) {
         let d = if v.get("fault_on").and_then(|x| x.as_str()) == Some("shp") { 0u8 } else { 1u8 };
         return long_verdicts(ty, n as usize, Some((d, k))).0.into_iter().map(|(_, s, d)| (s, d)).collect();
+    }
+    if let (Some(n), Some(k), Some(ty)) = (v.get("long_record").and_then(|x| x.as_u64()), v.get("operation").and_then(|x| x.as_u64()), v.get("ty").and_then(|x| x.as_str()).and_then(Ty::from_name)) {
+        let d = if v.get("fault_on").and_then(|x| x.as_str()) == Some("shp") { 0u8 } else { 1u8 };
+        return long_record_verdicts(ty, n as usize, Some((d, k))).0.into_iter().map(|(_, s, d)| (s, d)).collect();
+    }
+    if let (Some(k), Some(calls), Some(ty)) = (v.get("repeated_failures_from_operation").and_then(|x| x.as_u64()), v.get("calls").and_then(|x| x.as_u64()), v.get("ty").and_then(|x| x.as_str()).and_then(Ty::from_name)) {
+        return repeated_failure_verdicts(ty, k, calls as usize);
     }
     if let (Some(n), Some(chunk), Some(ty)) = (v.get("points_in_part").and_then(|x| x.as_u64()), v.get("chunk").and_then(|x| x.as_u64()), v.get("ty").and_then(|x| x.as_str()).and_then(Ty::from_name)) {
         return big_verdicts(ty, n as usize, chunk as usize);
